@@ -60,6 +60,14 @@ OPS = [
 ]
 
 
+#: a pipe of infinite throughput that is an ordinary `Pipe`: positive volumes take no time and must still yield
+INFINITE_PIPE_OPS = [
+    ('transfer-infinite-pipe', ['transfer', 2, 5, None]),
+    ('transfer-infinite-pipe-limited', ['transfer', 2, 5, 3]),
+    ('transfer-infinite-pipe-zero', ['transfer', 2, 0, None]),
+]
+
+
 def case(name, setup, op, k, prefix=None):
     spinners = [['spawn', 0, i, None, None, True, ['prog', ['log', 200 + i]]] for i in range(k)]
     body = list(prefix or []) + list(setup) + spinners + [['log', 100], op, ['log', 101]]
@@ -208,6 +216,15 @@ def run(tier, seed, drv):
         for k in (1, 2, 3):
             st.judge_params = str(k)
             st.check(case(name, setup, op, k), meta={'operation': name, 'spinners': k}, nontrivial=lambda impl: True)
+            st.res.count('op:' + name)
+    # transfers through `Pipe(float('inf'))` (not `UnboundedPipe`): the pipe computes with floats whatever the clock is made of; the
+    # machine's rational time has no infinity, so these rows are judged on the implementation's trace only
+    for name, op in INFINITE_PIPE_OPS:
+        for k in (1, 2, 3):
+            st.judge_params = str(k)
+            sc = case(name, [], op, k)
+            sc = [x if not (isinstance(x, list) and x and x[0] == 'pipes') else ['pipes', 2, 'inf', 'pinf'] for x in sc]
+            st.check(sc, meta={'operation': name, 'spinners': k}, nontrivial=lambda impl: True, compare=False)
             st.res.count('op:' + name)
     if tier == 'thorough':
         for i in range(3000):
